@@ -21,5 +21,8 @@ CHECKS['C07'] = dict(category='exploration', design_ref='DESIGN.md §2 C07',
 CHECKS['C06'] = dict(category='exploration', design_ref='DESIGN.md §2 C06',
   text='Runtime differential monitoring of generated module shapes (defined/imported memory, table, globals; overlapping active and passive data segments; element segments; start function that reports the state it finds): post-instantiation dump of memory, globals, table slots and start trace, then interleaved calls on two live instances sharing imported objects, compared with two V8 instances. The driver links against independently mangled symbols, so an unreachable export is a violation.',
   note=V8 + ' Segments in bounds; offsets read only imported globals (initialisation order unobservable).', technique='post-instantiation state dump + two-instance history differential vs V8')
-for p in ['C08','C09','C10','C11','C12','C13','C14','C15','C16','C17','C18','C19','C20']:
+CHECKS['C10'] = dict(category='fault_enumeration', design_ref='DESIGN.md §3 C10',
+  text='The unmodified translator, built with ASan + UBSan memory checks (reports fatal), is run as a process over valid inputs (spec corpus, examples, hostile name/size/nesting shapes) x a covering set of option combinations and output paths, and over every proper prefix of small files plus boundary/sampled prefixes of large ones. Verdict per run: exit status rule, no signal, no sanitizer report, no hang. Thorough adds valgrind memcheck on a sample.',
+  note='Red-zone sanitizers miss non-adjacent/intra-object overflows; UBSan arithmetic kinds are deliberately not part of the deciding build; inputs limited to the generated/corpus classes listed in evidence.', technique='sanitizer-instrumented process runs + truncation-point enumeration')
+for p in ['C08','C09','C11','C12','C13','C14','C15','C16','C17','C18','C19','C20']:
     NA[p] = 'check not implemented yet in this revision (runtime-monitoring design exists in DESIGN.md; no claim is made until the monitor runs)'
